@@ -13,6 +13,7 @@ import EinoV.Proofs.C02CompileWF
 import EinoV.Proofs.C02CompileWWF
 import EinoV.Proofs.C02Settled
 import EinoV.Proofs.C02EndWaits
+import EinoV.Proofs.C02LockStep
 import EinoV.Proofs.C02Eager
 import EinoV.Proofs.C02Just
 import EinoV.Proofs.C02Complete
@@ -691,5 +692,18 @@ theorem dag_returns_as_soon_as_end_is_enabled {V} (ops : ValOps V) (r : Runner V
     (older : Trace V) (h : (runS ops r sched x).trace.reverse = pre ++ step :: older) :
     ¬ Enabled r (histOf r x older) END :=
   run_end_never_waits ops r wf wf2 sched hf x pre step older h
+
+open EinoV.Engine.DagRun in
+/-- **dag_stuck_run_has_nothing_enabled.** A run ends with "no tasks to execute" only in a state in
+    which the specification enables nothing: if the last step of the trace is empty (the loop's
+    `noTasks` exit), every node enabled by the completions so far has been started already, and END
+    is not enabled — the engine never gives up while something could still run. -/
+theorem dag_stuck_run_has_nothing_enabled {V} (ops : ValOps V) (r : Runner V) (wf : DagWF r) (wf2 : DagWF2 r)
+    (sched : Sched V) (hf : sched.Fair) (x : V) (older : Trace V)
+    (h : (runS ops r sched x).trace.reverse = [] :: older) :
+    (∀ n, Enabled r (histOf r x older) n → n ∈ keysOfTr older) ∧ ¬ Enabled r (histOf r x older) END := by
+  refine ⟨fun n hen => ?_, run_end_never_waits ops r wf wf2 sched hf x [] [] older h⟩
+  have := compTr_at r x _ (run_complete ops r wf wf2 sched hf x) [] [] older h n hen
+  simpa [keysOfTr] using this
 
 end EinoV.C02
